@@ -10,7 +10,7 @@ def contracts():
     return c05 + cr + ct + managers.contracts()
 
 
-LEVEL = "other"
+LEVEL = "proof"
 EXPLANATION = ("Every function that can change or report the verdict is under contract: Fail/FailAll/Stopper._stop_me set it False exactly when "
                "fired, ErrorHandler._handle_if exactly under 'fail', Matcher.matches and _consider_line are monotone, Failed reports the current "
                "verdict; the writer scan lists every assignment to is_valid/_is_valid in /repo and requires each to be in a function under contract.")
